@@ -226,6 +226,17 @@ theorem C11_rebuild_agrees_with_live (cfg : Cfg) (pol : Policy) (hpol : TimeFree
   obtain ⟨rep, h1, h2⟩ := rebuild_agrees cfg hpol st0 now start timeout acts now0 clk
   exact ⟨rep.st, by simp [C11.rebuild, h1], simSt_iff_erase.mp h2⟩
 
+/-- non-vacuity: an attempt-based policy; a run with a worker in flight; the rebuild at clock 50
+carries another `first_attempt_at` than the live state (0), and nothing else differs -/
+def C11.pol0 : Policy := fun _ _ _ _ => .stop
+theorem C11.pol0_free : TimeFree C11.pol0 := fun _ _ _ _ _ => rfl
+example :
+    (C11.rebuild C11.exCfg C11.pol0 initState 50 (fun _ => 50)
+      (ticksOf (C11.runFrom C11.exCfg C11.pol0 initState 0 (some C11.startEv) none [.drain]).log)).map
+        (fun s => (s.isRunning, (s.workers 0).inProg.map (fun i => (i.wid, i.ev.uid, i.firstAt)))) = some (true, [(0, 1, 50)]) ∧
+    ((C11.runFrom C11.exCfg C11.pol0 initState 0 (some C11.startEv) none [.drain]).st.workers 0).inProg.map
+      (fun i => (i.wid, i.ev.uid, i.firstAt)) = [(0, 1, 0)] := by decide
+
 /-- **what "timestamps aside" means**: `eraseSt` blanks `first_attempt_at` of queued attempts,
 in-progress invocations (and of the waiter records inside their snapshots) and waiters — and keeps
 everything the property names: running flag, buffers, and of every queued / running / waiting
@@ -244,6 +255,11 @@ theorem C11_erasure_keeps (st : State) (n : Nat) :
         (fun w => (w.wid, w.ev, w.waitTy, w.req, w.hasReq, w.resolved, w.timedOut, w.attempts, w.lastExc, w.lastFailedAt, w.rc)) := by
   simp [eraseSt, eraseSS, List.map_map, Function.comp_def, eraseA, eraseIP, eraseW]
 
+example : ((eraseSt (C11.runFrom C11.exCfg C11.pol0 initState 7 (some C11.startEv) none [.drain]).st).workers 0).inProg.map
+      (fun i => (i.wid, i.ev.uid, i.firstAt)) = [(0, 1, 0)] ∧
+    ((C11.runFrom C11.exCfg C11.pol0 initState 7 (some C11.startEv) none [.drain]).st.workers 0).inProg.map
+      (fun i => (i.wid, i.ev.uid, i.firstAt)) = [(0, 1, 7)] := by decide
+
 /-- the erasure function is the agreement relation the simulation proofs use, and it is idempotent -/
 theorem C11_erasure_is_agreement (a b : State) :
     (SimSt a b ↔ eraseSt a = eraseSt b) ∧ eraseSt (eraseSt a) = eraseSt a :=
@@ -256,6 +272,10 @@ theorem C11_reduce_commutes_with_erasure (cfg : Cfg) (pol : Policy) (hpol : Time
     eraseSt (reduce cfg pol t s n).1 = eraseSt (reduce cfg pol t (eraseSt s) n').1 ∧
       (reduce cfg pol t s n).2.map cE = (reduce cfg pol t (eraseSt s) n').2.map cE :=
   ⟨simSt_iff_erase.mp (reduce_sim cfg hpol t n n' (sim_eraseSt s)).1, (reduce_sim cfg hpol t n n' (sim_eraseSt s)).2⟩
+
+example : ((reduce C11.exCfg C11.pol0 (.addEvent { ev := C11.startEv } none) initState 9).1.workers 0).inProg.map (·.firstAt) = [9] ∧
+    ((reduce C11.exCfg C11.pol0 (.addEvent { ev := C11.startEv } none) (eraseSt initState) 4).1.workers 0).inProg.map (·.firstAt) = [4] := by
+  decide
 
 /-- so do `rewind_in_progress` (same commands) and the serialisation round trip — no guard needed -/
 theorem C11_rewind_serialise_commute_with_erasure (cfg : Cfg) (s : State) (n n' : Int) :
@@ -295,6 +315,13 @@ theorem C11_running_steps_describe_run (cfg : Cfg) (hwf : cfg.WF) (pol : Policy)
   obtain ⟨hn, ip, hip, _, _⟩ := hinv.sub w hw
   rw [heq]
   exact (hmem w.step).mpr ⟨hn, fun he => by rw [he] at hip; cases hip⟩
+
+example : C11.exCfg.WF ∧ IdsInv C11.exCfg initState ∧
+    C11.runningSteps C11.exCfg (C11.runFrom C11.exCfg C11.pol0 initState 0 (some C11.startEv) none [.drain]).st = [0] ∧
+    (C11.runFrom C11.exCfg C11.pol0 initState 0 (some C11.startEv) none [.drain]).running.map (·.step) = [0] ∧
+    C11.runningSteps C11.exCfg (C11.runFrom C11.exCfg C11.pol0 initState 0 (some C11.startEv) none
+      [.drain, .workerDone 0 0 [.result none], .drain]).st = [] :=
+  ⟨by unfold Cfg.WF; decide, idsInv_init _, by decide, by decide, by decide⟩
 
 def C11.eraseSerStep (s : SerStep) : SerStep :=
   { s with queue := s.queue.map eraseA, waiters := s.waiters.map (fun w => { w with firstAt := none }) }
@@ -352,6 +379,12 @@ theorem C11_to_dict_describes_run (cfg : Cfg) (pol : Policy) (hpol : TimeFree po
       have := congrArg (List.map (·.ev)) (h2.workers s).inProg
       simpa [List.map_map, Function.comp_def, eraseIP] using this
     simp only [serStep, hev, (h2.workers s).collected]
+
+example :
+    (C11.toDict C11.exCfg C11.pol0 initState 50 (fun _ => 50)
+      (ticksOf (C11.runFrom C11.exCfg C11.pol0 initState 0 (some C11.startEv) none [.drain]).log)).map
+        (fun d => (d.isRunning, d.workers.map (fun p => (p.1, p.2.queue.length, p.2.inProg.map (·.uid))))) =
+      some (true, [(0, 0, [1])]) := by decide
 
 /-! ### the guard is needed: elapsed-time policies -/
 
@@ -468,7 +501,27 @@ theorem C11_resumed_runs (cfg : Cfg) (pol : Policy) (hpol : TimeFree pol) (s : S
         exact C11.deser_inProg cfg d n
   exact hmain legs _ (C11.deser_inProg cfg s)
 
+/-- non-vacuity: a run is snapshotted with its only invocation in flight; the loaded context has it
+queued (`init_state`), the resumed run's rewind starts it again, it finishes, and the second
+snapshot is taken of a run that completed -/
+def C11.stopEv : Ev := { ty := 1, kind := .stop, uid := 2 }
+def C11.legs2 : List C11.Leg :=
+  [{ now := 0, start := some C11.startEv, timeout := none, acts := [.drain], snapNow := 5, snapClk := fun _ => 5 },
+   { now := 10, start := none, timeout := none, acts := [.workerDone 0 0 [.result (some C11.stopEv)], .drain],
+     snapNow := 20, snapClk := fun _ => 20 }]
+example :
+    (C11.session C11.exCfg C11.pol0 (deser C11.exCfg (ser C11.exCfg initState)) C11.legs2).map
+      (fun p => (p.1.isRunning, (p.1.workers 0).queue.map (·.ev.uid), (C11.legRun C11.exCfg C11.pol0 p.1 p.2).log.length,
+        (C11.legRun C11.exCfg C11.pol0 p.1 p.2).outcome.isSome)) =
+      [(false, [], 1, false), (true, [1], 1, true)] := by decide
+
 /-! ### what `rewind_in_progress` keeps; it is not idempotent -/
+
+def C11.cfg2w : Cfg := { steps := [{ name := 0, accepted := [0], numWorkers := 2, hasRetry := false }] }
+def C11.evA : Ev := { ty := 0, kind := .plain, uid := 11 }
+def C11.evB : Ev := { ty := 0, kind := .plain, uid := 12 }
+def C11.st2w : State :=
+  { isRunning := true, workers := fun _ => { queue := [{ ev := C11.evA }, { ev := C11.evB }] } }
 
 /-- **rewind on start**, for every state: the running flag, and for every configured step the
 buffers and the waiters, are kept; the invocations that were in progress come back first, in
@@ -493,16 +546,15 @@ theorem C11_rewind_keeps (cfg : Cfg) (hwf : cfg.WF) (st : State) (now : Int) :
     intro hm
     exact hn ((sortedSteps_names_perm cfg).mem_iff.mp hm)
 
+example : C11.cfg2w.WF ∧
+    servedEvs ((rewind C11.cfg2w (rewind C11.cfg2w C11.st2w 0).1 0).1.workers 0) = [C11.evB, C11.evA] ∧
+    servedEvs ((rewind C11.cfg2w C11.st2w 0).1.workers 0) = [C11.evA, C11.evB] :=
+  ⟨by unfold Cfg.WF; decide, by decide, by decide⟩
+
 /-- "rewinding a rewound state changes nothing (timestamps aside)" -/
 def C11_statement_rewind_idempotent : Prop :=
   ∀ (cfg : Cfg), cfg.WF → ∀ (st : State) (now now' : Int),
     eraseSt (rewind cfg (rewind cfg st now).1 now').1 = eraseSt (rewind cfg st now).1
-
-def C11.cfg2w : Cfg := { steps := [{ name := 0, accepted := [0], numWorkers := 2, hasRetry := false }] }
-def C11.evA : Ev := { ty := 0, kind := .plain, uid := 11 }
-def C11.evB : Ev := { ty := 0, kind := .plain, uid := 12 }
-def C11.st2w : State :=
-  { isRunning := true, workers := fun _ => { queue := [{ ev := C11.evA }, { ev := C11.evB }] } }
 
 /-- **refuted**: two invocations in flight on a 2-worker step swap worker ids under a second
 rewind (so a rebuild that rewinds a mid-run state — seeded change C11-a — no longer matches the
@@ -517,6 +569,18 @@ theorem C11_refuted_rewind_idempotent : ¬ C11_statement_rewind_idempotent := by
 example : ((rewind C11.cfg2w C11.st2w 0).1.workers 0).inProg.map (fun i => (i.wid, i.ev.uid)) = [(0, 11), (1, 12)] ∧
     ((rewind C11.cfg2w (rewind C11.cfg2w C11.st2w 0).1 0).1.workers 0).inProg.map (fun i => (i.wid, i.ev.uid)) = [(0, 12), (1, 11)] := by
   decide
+
+/-- **the strongest true part**: when no step has more than one worker a second rewind changes
+nothing but `first_attempt_at` (worker 0 is re-assigned to the same invocation) -/
+theorem C11_rewind_idempotent_partial (cfg : Cfg) (hwf : cfg.WF) (h1 : cfg.steps.all (fun c => c.numWorkers ≤ 1) = true)
+    (st : State) (now now' : Int) :
+    eraseSt (rewind cfg (rewind cfg st now).1 now').1 = eraseSt (rewind cfg st now).1 :=
+  simSt_iff_erase.mp (rewind_idem_single cfg hwf (fun c hc => by simpa using List.all_eq_true.mp h1 c hc) st now now')
+
+example : C11.exCfg.WF ∧ C11.exCfg.steps.all (fun c => c.numWorkers ≤ 1) = true ∧
+    ((rewind C11.exCfg { isRunning := true, workers := fun _ => { queue := [{ ev := C11.evA }, { ev := C11.evB }] } } 5).1.workers 0).inProg.map
+      (fun i => (i.wid, i.ev.uid, i.firstAt)) = [(0, 11, 5)] := by
+  refine ⟨by unfold Cfg.WF; decide, by decide, by decide⟩
 
 /-! ### the recording discipline over whole histories -/
 
